@@ -738,12 +738,12 @@ fn parse_common_time_format(s: &str) -> Option<u32> {
         match it.next() {
             Some(s) if s.ends_with(H_SEP) && !hours_found => {
                 let hours = &s[..s.len() - H_SEP.len_utf8()].parse::<u32>().ok()?;
-                total_minutes += hours * 60;
+                total_minutes = total_minutes.checked_add(hours.checked_mul(60)?)?;
                 hours_found = true;
             }
             Some(s) if s.ends_with(M_SEP) => {
                 let minutes = &s[..s.len() - M_SEP.len_utf8()].parse::<u32>().ok()?;
-                total_minutes += minutes;
+                total_minutes = total_minutes.checked_add(*minutes)?;
                 break;
             }
             None => break,
